@@ -28,6 +28,8 @@ import (
 //   resend-rejected     : a Put of an alert that is stored and unexpired is stored (never refused)
 //   silent-refusal      : a Put that is not stored bumps alertmanager_alerts_limited_total
 //   unresolved-collected: GC never removes an alert whose end is in the future
+//   refused-although-room: a new alert is admitted whenever fewer than N alerts of the name are unexpired
+//                          (room is made by expiry, and an explicit end in the past is an expiry)
 
 type c18Ev struct {
 	name  string
@@ -35,6 +37,7 @@ type c18Ev struct {
 	end   time.Duration // end = now + end (0 => timeout-style heartbeat, 5m)
 	adv   time.Duration
 	gc    bool
+	resolve bool
 }
 
 func c18Alphabet(nAlerts int) []c18Ev {
@@ -42,6 +45,11 @@ func c18Alphabet(nAlerts int) []c18Ev {
 	for i := 0; i < nAlerts; i++ {
 		for _, e := range []time.Duration{5 * time.Second, 10 * time.Second, 200 * time.Second} {
 			evs = append(evs, c18Ev{name: fmt.Sprintf("post a%d end+%v", i, e), alert: i, end: e})
+		}
+		if i < 2 {
+			// strictly in the past: at the single instant end == now the alert counts as resolved but its slot not yet as
+			// expired, a tie the real clock cannot hold for the duration of two requests
+			evs = append(evs, c18Ev{name: fmt.Sprintf("resolve a%d (end = 1ms ago)", i), alert: i, end: -time.Millisecond, resolve: true})
 		}
 	}
 	evs = append(evs,
@@ -88,6 +96,16 @@ func c18Run(t *testing.T, limit int, evs []c18Ev, h []int) (res seqx.Result) {
 				if old, err := a.alerts.Get(fp); err == nil && old.EndsAt.After(now) {
 					heldUnexpired = true
 				}
+				if ev.resolve && !heldUnexpired {
+					res.Skip = true
+					return
+				}
+				unexpiredBefore := 0
+				for _, o := range a.alerts.List() {
+					if o.EndsAt.After(now) {
+						unexpiredBefore++
+					}
+				}
 				before := limited()
 				a.Put(context.Background(), al)
 				stored := false
@@ -100,6 +118,8 @@ func c18Run(t *testing.T, limit int, evs []c18Ev, h []int) (res seqx.Result) {
 					res.Viol, res.Desc = "resend-rejected", fmt.Sprintf("step %d: re-send of stored unexpired alert a%d refused", step, ev.alert)
 				} else if !stored && !bumped {
 					res.Viol, res.Desc = "silent-refusal", fmt.Sprintf("step %d: alert a%d not stored and limited counter unchanged", step, ev.alert)
+				} else if !stored && unexpiredBefore < limit {
+					res.Viol, res.Desc = "refused-although-room", fmt.Sprintf("step %d: alert a%d refused although only %d alerts of the name are unexpired under limit %d", step, ev.alert, unexpiredBefore, limit)
 				}
 			case ev.adv > 0:
 				time.Sleep(ev.adv)
